@@ -118,6 +118,9 @@ template <class NS> struct SolverSession : Session {
                     if (i >= n) continue;
                     model.d[i] = dj[1].num();
                     vs[i]->desiredPosition = model.d[i];
+                    // [i, desired, weight]: the weight of a variable of the live solver is changed too -- what gradient projection does
+                    // when it pins a node (fixPos: desired position and a weight of 100000) and releases it again
+                    if (dj.size() >= 3 && dj[2].num() > 0) { model.w[i] = dj[2].num(); vs[i]->weight = model.w[i]; probe("vpsc.weight-changed-on-live-solver"); }
                 }
                 probe("vpsc.desired-moved");
             } else if (o == "solve" || o == "satisfy") {
@@ -348,7 +351,9 @@ Json genSolverSession(Rng &r, const std::string &tier, int forceNs = -1) {
             if (what >= 1) {
                 Json o = Json::obj(); o.set("op", "desired"); Json sl = Json::arr();
                 int k = r.range(1, std::min(n, 8));
-                for (int j = 0; j < k; j++) { Json e = Json::arr(); e.push((long)r.below(n)); e.push(tenths ? (double)r.range(-40, 40) * 0.1 : (double)r.range(-20, 20) * (large ? 5 : 1)); sl.push(e); }
+                Rng r2(Rng::mix(r.s, "live-weight"));       // side stream: the desired positions drawn stay what they were
+                bool withWeights = r2.chance(0.35);
+                for (int j = 0; j < k; j++) { Json e = Json::arr(); e.push((long)r.below(n)); e.push(tenths ? (double)r.range(-40, 40) * 0.1 : (double)r.range(-20, 20) * (large ? 5 : 1)); if (withWeights && r2.chance(0.6)) e.push(r2.pick(std::vector<double>{0.5, 1, 2, 3, 10, 1000})); sl.push(e); }
                 o.set("set", sl); ops.push(o);
             }
         }
